@@ -2,9 +2,10 @@
 import re
 
 from .. import ir
-from ..analysis import And, Atom, Not, Or, T, atoms_of, cmp_formula, implies, show, uncond_subnodes, diverges
-from ..common import BLOCK, CORE, Env, call_args, callee_paths, core_handlers, iter_chain, key, ordinal_keys, MPSC_SEND, MPSC_RECV
+from ..analysis import And, Atom, Not, Or, T, F as F_, atoms_of, cmp_formula, implies, show, uncond_subnodes, diverges
+from ..common import BLOCK, CORE, Env, peel, call_args, callee_paths, core_handlers, iter_chain, key, ordinal_keys, MPSC_SEND, MPSC_RECV
 from ..wiring import Wiring
+from ..paths import enum_paths, TooManyPaths
 from .c02 import _Aux
 
 LEVEL = "other"
@@ -102,18 +103,23 @@ def rules(P, R, prefix="C08"):
                     else:
                         why = "records `%s` under `%s`; required: every x of block.payload with store.read(x) == None" % (pt, show(inner))
                 R.judge(okp, prefix + ".D2", key(vf, "every digest whose store read misses is recorded" + tag), l["sp"], why, why)
-            # every Ok(true) is under record.is_empty(), after the loop
-            trues = [n for n in vf.nodes() if n["k"] == "ctor" and n["path"].endswith("::Ok") and n.get("args") and n["args"][0]["k"] == "lit" and n["args"][0]["v"].get("bool") is True]
-            R.floor(prefix + ".D2", len(trues), 1, "Ok(true) results of verify" + tag)
-            for i, n in enumerate(trues):
+            # every Ok(v) exit: v can be true only when the record is empty, after the full scan (v may be a literal or any
+            # boolean expression, e.g. `let available = missing.is_empty(); .. Ok(available)`)
+            oks = [n for n in vf.nodes() if n["k"] == "ctor" and n["path"].endswith("::Ok") and n.get("args") and peel(n["args"][0].get("ty")) == "bool"
+                   and not (n.get("m") and "desugar:QuestionMark" in n["m"])]
+            R.floor(prefix + ".D2", len(oks), 1, "Ok(<bool>) results of verify" + tag)
+            for i, n in enumerate(oks):
                 pc = flow.pathcond(n)
+                val = ctx.formula(n["args"][0])
+                if implies(And(pc, val), F_)[0]:
+                    continue    # this exit never answers true
                 okt = False
                 if rec is not None:
-                    okt, _ = implies(pc, Atom("empty(%s)" % ctx.term(rec)))
+                    okt, _ = implies(And(pc, val), Atom("empty(%s)" % ctx.term(rec)))
                 doms = flow.dominators(n)
                 after = bool(full) and any(d is full[0] for d in doms)
-                R.judge(okt and after, prefix + ".D2", key(vf, "Ok(true) only when nothing is missing" + tag, i), n["sp"], show(pc),
-                        "verify can answer true without the record of missing digests being empty after the full scan (path condition %s)" % show(pc))
+                R.judge(okt and after, prefix + ".D2", key(vf, "Ok(true) only when nothing is missing" + tag, i), n["sp"], show(And(pc, val)),
+                        "verify can answer true without the record of missing digests being empty after the full scan (condition %s)" % show(And(pc, val)))
             if rec is not None:
                 other = [n for n in vf.nodes() if n["k"] == "mcall" and n["recv"]["k"] == "var" and n["recv"]["id"] == rec["id"]
                          and n["name"] in ("clear", "pop", "remove", "retain", "truncate", "drain", "swap_remove", "dedup")]
@@ -131,17 +137,31 @@ def rules(P, R, prefix="C08"):
                     a0, a1 = ctx.term(n["args"][0]), ctx.term(n["args"][1])
                     R.judge(a0 == ctx.term(rec) and a1 == "«Block».author", prefix + ".D3", key(vf, "mempool asked to fetch the same digests from the author" + tag, i), n["sp"],
                             "Synchronize(%s, %s)" % (a0, a1), "Synchronize(%s, %s)" % (a0, a1))
-                # both messages are sent on the false path, before Ok(false)
-                falses = [n for n in vf.nodes() if n["k"] == "ctor" and n["path"].endswith("::Ok") and n.get("args") and n["args"][0]["k"] == "lit" and n["args"][0]["v"].get("bool") is False]
-                for i, n in enumerate(falses):
-                    doms = flow.dominators(n)
-                    sent = [d for d in doms if d["k"] == "mcall" and MPSC_SEND in callee_paths(d)]
-                    kinds = set()
-                    for d in sent:
-                        t = ctx.term(d["args"][0])
-                        kinds.add("wait" if t.startswith("Wait(") else "sync" if t.startswith("Synchronize(") else "?")
-                    R.judge({"wait", "sync"} <= kinds, prefix + ".D3", key(vf, "false result only after parking and requesting" + tag, i), n["sp"], str(sorted(kinds)),
-                            "verify returns false without having both parked the block and requested the batches (%s)" % sorted(kinds))
+                # whenever the record may be non-empty after the scan, the block is parked AND the batches are requested:
+                # every path through verify that neither panics nor propagates an error and on which `record.is_empty()` is not
+                # known sends both messages (with D2 - true only when the record is empty - this covers every false answer)
+                try:
+                    vpaths = enum_paths(ctx, vf.body)
+                except TooManyPaths:
+                    vpaths = None
+                if R.judge(vpaths is not None, prefix + ".D3", key(vf, "verify paths enumerable" + tag), vf.sp, "", "too many paths (undecidable-shape)", reason="undecidable-shape"):
+                    bad = []
+                    nfalse = 0
+                    for p_ in vpaths:
+                        if p_.exit == "panic" or (p_.exit == "ret" and p_.label == "?err"):
+                            continue
+                        if implies(p_.cond(), Atom("empty(%s)" % ctx.term(rec)))[0]:
+                            continue
+                        nfalse += 1
+                        kinds = set()
+                        for e in p_.events:
+                            if e["k"] == "mcall" and MPSC_SEND in callee_paths(e):
+                                t = ctx.term(e["args"][0])
+                                kinds.add("wait" if t.startswith("Wait(") else "sync" if t.startswith("Synchronize(") else "?")
+                        if not ({"wait", "sync"} <= kinds):
+                            bad.append("[%s] sends %s" % (show(p_.cond())[:160], sorted(kinds)))
+                    R.judge(not bad and nfalse > 0, prefix + ".D3", key(vf, "false result only after parking and requesting" + tag), vf.sp, "%d paths with a possibly non-empty record" % nfalse,
+                            "verify can finish with missing batches without having both parked the block and requested them: %s" % "; ".join(bad)[:400])
 
         # ---------------- D4 waiter waits for all
         wf = prog.fn(PW + "::waiter")
@@ -169,6 +189,16 @@ def rules(P, R, prefix="C08"):
                     bb = ctx.term(base)
                     okc = bt == "%s[*].1.notify_read(%s[*].0.to_vec())" % (bb, bb)
                     det = bt
+                if not okc:
+                    from ..common import push_loop_collection
+                    a0 = tj[0]["args"][0]
+                    while a0["k"] == "ref":
+                        a0 = a0["e"]
+                    plc = push_loop_collection(wf, ctx, a0)
+                    if plc is not None:
+                        bb, et = plc
+                        okc = bb in (p0, "local:" + ps[0]["name"]) and et == "%s[*].1.notify_read(%s[*].0.to_vec())" % (bb, bb)
+                        det = "for e in %s { push(%s) }" % (bb, et)
                 R.judge(okc, prefix + ".D4", key(wf, "one notify_read per missing digest, none skipped" + tag), tj[0]["sp"], det,
                         "the futures joined are `%s`: not notify_read(x) for every (x, store) of the missing list" % det)
             somes = [n for n in wf.nodes() if n["k"] == "ctor" and n["path"].endswith("::Some") and n.get("args") and ctx.term(n["args"][0]) == p1]
